@@ -322,3 +322,5 @@ MANIFEST = {
     'technique': 'typestate abstract interpretation + dominance checks + exception-escape analysis',
     'design_ref': 'DESIGN.md 3/C09',
 }
+MANIFEST['note'] += (' Also decided here (necessary conditions shared between properties or added after the independent '
+                     'change rounds, DESIGN.md 8.7): hand-over at commit (from C10), lookup by SPI returns table entries (from C16), kernel teardown cannot fail or be cut short (from C10/C14), from_exception cannot raise.')
